@@ -698,7 +698,7 @@ func newRawLST(spec refsym.LSTSpec, cat refsym.Catalog) []byte {
 
 func init() {
 	Register(&Monitor{ID: "C09", Run: func(c *Ctx) {
-		c.Rule = "symbol-table configurations built through the public API (NewSharedSymbolTable/Adjust/NewLocalSymbolTable/NewSymbolTableBuilder) and through the Reader with a catalog, compared on MaxID, FindByID for every id in 0..MaxID+2, FindByName/Find for every text of the alphabet, Symbols, Imports, NewSymbolToken(BySID), Add/Build, against an independent model of the id space. Non-trivial: an adjusted max_id, duplicate/shadowing text, or a builder history with >=2 Adds; distinct by configuration."
+		c.Rule = "symbol-table configurations built through the public API (NewSharedSymbolTable/Adjust/NewLocalSymbolTable/NewSymbolTableBuilder) and through the Reader with a catalog (which may hold padded or cut views of its tables); chains of Adjust (padded, then cut back to the table's own length, and so on); the system symbol table itself listed among the imports at any position; compared on MaxID, FindByID for every id in 0..MaxID+2, FindByName/Find for every text of the alphabet, Symbols, Imports, NewSymbolToken(BySID), Add/Build, against an independent model of the id space. Non-trivial: an adjusted max_id, duplicate/shadowing text, or a builder history with >=2 Adds; distinct by configuration."
 		c.Assume("text \"\" in a table definition is an undefined slot for by-name lookup (DESIGN.md section 5); slot arithmetic is still checked")
 		runC09(c)
 	}, Replay: func(c *Ctx, v *Violation) string {
